@@ -313,6 +313,9 @@ impl rip_kernel::verif::Hooks for SchedHooks {
     fn pid_alive(&self, pid: u32) -> Option<bool> {
         ENV.with(|e| e.borrow().as_ref().and_then(|e| e.pid_alive(pid)))
     }
+    fn kill_errno(&self, pid: u32) -> Option<i32> {
+        ENV.with(|e| e.borrow().as_ref().and_then(|e| e.kill_errno(pid)))
+    }
     fn ping(&self, endpoint: &str) -> Option<bool> {
         ENV.with(|e| e.borrow().as_ref().and_then(|e| e.ping(endpoint)))
     }
@@ -340,6 +343,9 @@ pub trait ActorEnv {
         None
     }
     fn pid_alive(&self, _pid: u32) -> Option<bool> {
+        None
+    }
+    fn kill_errno(&self, _pid: u32) -> Option<i32> {
         None
     }
     fn ping(&self, _endpoint: &str) -> Option<bool> {
